@@ -58,6 +58,11 @@ def run_tlc(module, cfg, metadir, env=None, workers=1, extra=None, timeout=1800,
     except subprocess.TimeoutExpired as ex:
         raise Broken("TLC timeout on %s (%s)" % (module, cfg))
     shutil.rmtree(metadir, ignore_errors=True)
+    for f in glob.glob(os.path.join(SPEC, "*_TTrace_*")):
+        try:
+            os.remove(f)
+        except OSError:
+            pass
     return r.returncode, r.stdout
 
 
